@@ -91,8 +91,25 @@ pub fn lzma_oneshot<R: BufRead, W: Write>(input: &mut R, sink: &mut W, o: &Optio
 pub fn lzma_bytes(data: &[u8], o: &Options) -> Outcome {
     let mut out = Vec::new();
     let mut rd = data;
-    let c = catch(|| lzma_rs::lzma_decompress_with_options(&mut rd, &mut out, o));
+    // with default options every other call goes through the plain entry point, which must be the same decoder
+    let c = if is_default(o) && data.len() % 2 == 0 {
+        catch(|| lzma_rs::lzma_decompress(&mut rd, &mut out))
+    } else {
+        catch(|| lzma_rs::lzma_decompress_with_options(&mut rd, &mut out, o))
+    };
     wrap(c, out)
+}
+
+/// The plain entry point `lzma_decompress` (default options).
+pub fn lzma_plain(data: &[u8]) -> Outcome {
+    let mut out = Vec::new();
+    let mut rd = data;
+    let c = catch(|| lzma_rs::lzma_decompress(&mut rd, &mut out));
+    wrap(c, out)
+}
+
+fn is_default(o: &Options) -> bool {
+    matches!(o.unpacked_size, lzma_rs::decompress::UnpackedSize::ReadFromHeader) && o.memlimit.is_none() && !o.allow_incomplete
 }
 
 /// Like `lzma_bytes` but also reports how many input bytes were consumed.
